@@ -8,6 +8,7 @@ import (
 	"strings"
 	"testing"
 
+	"github.com/benhoyt/goawk/interp"
 	"github.com/benhoyt/goawk/parser"
 	"pgregory.net/rapid"
 
@@ -82,6 +83,104 @@ func run(x *h.Ctx, c Case) string {
 	return ""
 }
 
+// ---------------------------------------------------------------------------
+// "getline var fills only var (not $0 or NF)" and "getline from a named file
+// leaves NR and FNR alone", in every input mode (the reference evaluator only
+// models the default mode): an invariant that needs no reference - the record
+// is snapshotted before and after the getline inside the program itself.
+
+type KeepCase struct {
+	Input  h.Str  `json:"input"`
+	Side   h.Str  `json:"side"`
+	Mode   string `json:"mode"`   // "", csv, tsv, csv header
+	Form   string `json:"form"`   // getline-var | getline-var-file | getline-arr | getline-arr-file
+	Every  int    `json:"every"`  // the getline runs on records whose NR % Every == 0
+	Touch  bool   `json:"touch"`  // the fields are touched ($1) before the getline, so they are already split
+	Modify bool   `json:"modify"` // a field is assigned afterwards and $0 rebuilt: must start from the record's own fields
+}
+
+func genKeep(t *rapid.T) KeepCase {
+	line := func(label string) string {
+		n := rapid.IntRange(1, 4).Draw(t, label+"nf")
+		var fs []string
+		for i := 0; i < n; i++ {
+			fs = append(fs, rapid.SampledFrom([]string{"a", "b", "12", "x y", "", "q", "zz", "7"}).Draw(t, label+"f"))
+		}
+		return strings.Join(fs, ",")
+	}
+	mk := func(label string) string {
+		var sb strings.Builder
+		for i := rapid.IntRange(2, 6).Draw(t, label+"n"); i > 0; i-- {
+			sb.WriteString(line(label) + "\n")
+		}
+		return sb.String()
+	}
+	return KeepCase{Input: h.Str(mk("m")), Side: h.Str(mk("s")), Mode: rapid.SampledFrom([]string{"", "csv", "csv", "tsv", "csv header"}).Draw(t, "mode"),
+		Form: rapid.SampledFrom([]string{"getline-var", "getline-var", "getline-var-file", "getline-arr", "getline-arr-file"}).Draw(t, "form"),
+		Every: rapid.IntRange(1, 2).Draw(t, "every"), Touch: rapid.Bool().Draw(t, "touch"), Modify: rapid.Bool().Draw(t, "modify")}
+}
+
+func runKeep(x *h.Ctx, c KeepCase) string {
+	dir := h.TempDir("c11k")
+	defer os.RemoveAll(dir)
+	side := dir + "/side"
+	os.WriteFile(side, []byte(c.Side), 0o644)
+	var gl string
+	switch c.Form {
+	case "getline-var":
+		gl = "r = (getline v)"
+	case "getline-var-file":
+		gl = "r = (getline v < F)"
+	case "getline-arr":
+		gl = "r = (getline arr[NR])"
+	default:
+		gl = "r = (getline arr[NR] < F)"
+	}
+	snap := func(name string) string {
+		return name + " = NF \"|\" $0; for (i = 1; i <= NF; i++) " + name + " = " + name + " \"|\" i \"=\" $i; " + name + "nr = NR \":\" FNR"
+	}
+	touch := ""
+	if c.Touch {
+		touch = "t = $1; "
+	}
+	modify := ""
+	if c.Modify {
+		modify = "; if (NF >= 2) { nf0 = NF; f2 = $2; $1 = \"Z\"; if (NF != nf0 || $2 != f2) print \"REBUILD-WRONG\", NR, NF, nf0, $2, f2 }"
+	}
+	src := fmt.Sprintf("BEGIN { FS = \",\" }\nNR %% %d == 0 { %s%s; %s; %s; if (s1 != s2) print \"RECORD-CHANGED\", NR, \"before:\", s1, \"after:\", s2; if (r > 0 && (index(\"%s\", \"file\") ? s1nr != s2nr : 0)) print \"NR-CHANGED\", s1nr, s2nr%s }\nEND { print \"done\", NR }\n",
+		c.Every, touch, snap("s1"), gl, snap("s2"), c.Form, modify)
+	prog, err := parser.ParseProgram([]byte(src), nil)
+	if err != nil {
+		return "harness program: " + err.Error() + "\n" + src
+	}
+	var out strings.Builder
+	cfg := &interp.Config{Stdin: strings.NewReader(string(c.Input)), Output: &out, Error: &out, Argv0: "goawk", Environ: []string{}, Vars: []string{"F", side}, NoExec: true, NoFileWrites: true}
+	switch c.Mode {
+	case "csv":
+		cfg.InputMode = interp.CSVMode
+	case "tsv":
+		cfg.InputMode = interp.TSVMode
+	case "csv header":
+		cfg.InputMode = interp.CSVMode
+		cfg.CSVInput.Header = true
+	}
+	if _, err := interp.ExecProgram(prog, cfg); err != nil {
+		return fmt.Sprintf("run failed: %v\nprogram: %s", err, src)
+	}
+	o := out.String()
+	if strings.Contains(o, "RECORD-CHANGED") || strings.Contains(o, "NR-CHANGED") || strings.Contains(o, "REBUILD-WRONG") {
+		return fmt.Sprintf("%s changed more than its target (input mode %q)\nprogram: %s\ninput: %q\nside file: %q\noutput:\n%s", c.Form, c.Mode, src, string(c.Input), string(c.Side), h.Trunc(o, 1200))
+	}
+	if !strings.Contains(o, "done") {
+		return fmt.Sprintf("the run did not reach END\nprogram: %s\noutput: %s", src, h.Trunc(o, 600))
+	}
+	x.Class("mode-" + c.Mode)
+	x.Class(c.Form)
+	x.Nontrivial("")
+	return ""
+}
+
 func init() {
 	h.Prop("bookkeeping_vs_reference", 30000, 400000, genCase, run)
+	h.Prop("getline_var_leaves_record_alone", 12000, 200000, genKeep, runKeep)
 }
